@@ -45,6 +45,7 @@ type schedule struct {
 	Rounds      []scenRound // the scripted rounds
 	MisRounds   int         // Scen "misconf": the number of bursts
 	Lost        lostCfg     // Scen "losttx"
+	Full        fullCfg     // Scen "full"
 }
 
 func makeSchedule(idx int) schedule {
@@ -131,6 +132,10 @@ type attempt struct {
 	stopFeed chan struct{}
 	wgFeed   sync.WaitGroup
 	feedOnce sync.Once
+
+	// Scen "full": what fullPrepool put into every pool, and the size of one
+	fullFirst []util.Uint256
+	fullSize  int
 }
 
 func (a *attempt) stopFeeder() {
@@ -280,7 +285,7 @@ func (a *attempt) syncer(stop chan struct{}, wg *sync.WaitGroup) {
 // the validators' pools.
 func (a *attempt) feeder(stop chan struct{}, wg *sync.WaitGroup) {
 	defer wg.Done()
-	if a.sc.Scen == "misconf" || a.sc.Scen == "losttx" {
+	if a.sc.Scen == "misconf" || a.sc.Scen == "losttx" || a.sc.Scen == "full" {
 		return // the scenario submits its transactions itself
 	}
 	if a.sc.Scen != "" {
@@ -511,6 +516,9 @@ func runAttempt(t testing.TB, sc schedule) (res *attemptResult, setupErr error) 
 	}
 	a := &attempt{t: t, sc: sc, cl: cl, net: net, sr: rng.New(uint64(190000 + sc.Idx)), res: res, txLeft: sc.MaxTxs, stopFeed: make(chan struct{})}
 	res.rec = cl.rec
+	if sc.Scen == "full" {
+		a.fullPrepool() // every pool is full before the first proposal is built
+	}
 	cl.start()
 	stop := make(chan struct{})
 	var wg sync.WaitGroup
@@ -523,6 +531,8 @@ func runAttempt(t testing.TB, sc schedule) (res *attemptResult, setupErr error) 
 		a.misconf()
 	} else if sc.Scen == "losttx" {
 		a.lostTx()
+	} else if sc.Scen == "full" {
+		a.full()
 	} else if sc.Scen != "" {
 		a.scenario()
 	} else {
@@ -610,7 +620,7 @@ func (a *attempt) randomPhases() {
 }
 
 func TestCheck(t *testing.T) {
-	run := ev.Start("C19", "one case = one seeded network schedule over a cluster variant (N validators, optionally N+2 committee nodes with elections, or a ValidatorsHistory that changes the number of validators 4->7 / 7->4 at an epoch boundary inside the run, StateRootInHeader, extensible pool in front of the service, tiny block limits, MaxTimePerBlock): real consensus services over real ledgers and block queues. Random schedules: fault phases drawn from the seed (loss, duplication, delay/reordering, partitions, targeted loss of view-0 prepare responses so that some validators commit while the others change view, loss of every view-0 proposal so that later primaries take over, up to f validators cut/mute/deaf/late; impaired+lagging <= f outside partitions) alternate with quiet phases in which bounded progress is demanded; transactions are pooled at random subsets of nodes and fetched through RequestTx. Scripted schedules (rec-*, burst-*, epoch-burst-*; the part without the race detector repeats the bursts): commit-lock rounds (F+1 validators commit at view v in {0,1,2,..} after the proposals of the lower views were lost, the others miss the responses / the proposal / everything, so that after the faults stop the height can only be finished through RecoveryRequest and RecoveryMessage, with the full PrepareRequest or its hash only, on both StateRootInHeader settings), backlog bursts (the inbound link of up to f validators stalls for > N blocks, then payloads kept for later and a batch of blocks arrive at once while the other validators are one short of M, what the laggers send is lost and recovery messages are lost), and the same burst for f+1 validators across a shrinking of the validator set 7->4 with the block accepted by the primary alone; after every scripted fault the post-fault bounded-progress verdict applies. Schedules with validators of different node-local block limits (misconf-*): up to f validators get their own MaxBlockSize / MaxBlockSystemFee / MaxTransactionsPerBlock (larger, smaller, or one of each), the common limits are tiny, the network is perfect, bursts of transfers larger than a block of the common limits are pooled at every node, most of them timed to the odd validator's turn as primary - the others refuse its proposal and the next primary must propose what fits; bounded progress is demanded throughout and every transaction pooled everywhere must be on chain within a bound counted in heights. Schedules with a proposed transaction the backups cannot get (losttx-*): 1-3 transactions reach the pool of the coming primary only and no peer hands them out on request (every consensus payload, block and other transaction is delivered); the backups run into their timers and ask for a change of view with the reason TxNotFound, the next primary proposes without them; afterwards the transactions are delivered to everybody (inclusion bound), kept back for another turn of the same primary, or expire; a variant makes them invalid for the others by node-local policy (MaxBlockSystemFee), with the relay cut or working (reason TxInvalid); ordinary transfers pooled everywhere are mixed in. Every payload handed to a node is decoded at the receive boundary the way its service decodes it: ChangeViews are counted by reason, a payload that does not decode is a violation. Distinct = cluster variant x fault kinds applied x mechanisms reached (view change, recovery, tx fetch, block sync, duplication, reordering); non-trivial = blocks were produced under faults (scripted: the commit lock was observed at the Broadcast boundary / a backlog was delivered in one burst / a height was settled at a later view after a proposal above the common limits, or over the refusal of a validator with smaller limits / after the backups could not get a proposed transaction) and the offline checker compared the ledgers of all nodes")
+	run := ev.Start("C19", "one case = one seeded network schedule over a cluster variant (N validators, optionally N+2 committee nodes with elections, or a ValidatorsHistory that changes the number of validators 4->7 / 7->4 at an epoch boundary inside the run, StateRootInHeader, extensible pool in front of the service, tiny block limits, MaxTimePerBlock): real consensus services over real ledgers and block queues. Random schedules: fault phases drawn from the seed (loss, duplication, delay/reordering, partitions, targeted loss of view-0 prepare responses so that some validators commit while the others change view, loss of every view-0 proposal so that later primaries take over, up to f validators cut/mute/deaf/late; impaired+lagging <= f outside partitions) alternate with quiet phases in which bounded progress is demanded; transactions are pooled at random subsets of nodes and fetched through RequestTx. Scripted schedules (rec-*, burst-*, epoch-burst-*; the part without the race detector repeats the bursts): commit-lock rounds (F+1 validators commit at view v in {0,1,2,..} after the proposals of the lower views were lost, the others miss the responses / the proposal / everything, so that after the faults stop the height can only be finished through RecoveryRequest and RecoveryMessage, with the full PrepareRequest or its hash only, on both StateRootInHeader settings), backlog bursts (the inbound link of up to f validators stalls for > N blocks, then payloads kept for later and a batch of blocks arrive at once while the other validators are one short of M, what the laggers send is lost and recovery messages are lost), and the same burst for f+1 validators across a shrinking of the validator set 7->4 with the block accepted by the primary alone; after every scripted fault the post-fault bounded-progress verdict applies. Schedules with validators of different node-local block limits (misconf-*): up to f validators get their own MaxBlockSize / MaxBlockSystemFee / MaxTransactionsPerBlock (larger, smaller, or one of each), the common limits are tiny, the network is perfect, bursts of transfers larger than a block of the common limits are pooled at every node, most of them timed to the odd validator's turn as primary - the others refuse its proposal and the next primary must propose what fits; bounded progress is demanded throughout and every transaction pooled everywhere must be on chain within a bound counted in heights. Schedules with a proposed transaction the backups cannot get (losttx-*): 1-3 transactions reach the pool of the coming primary only and no peer hands them out on request (every consensus payload, block and other transaction is delivered); the backups run into their timers and ask for a change of view with the reason TxNotFound, the next primary proposes without them; afterwards the transactions are delivered to everybody (inclusion bound), kept back for another turn of the same primary, or expire; a variant makes them invalid for the others by node-local policy (MaxBlockSystemFee), with the relay cut or working (reason TxInvalid); ordinary transfers pooled everywhere are mixed in. Every payload handed to a node is decoded at the receive boundary the way its service decodes it: ChangeViews are counted by reason, a payload that does not decode is a violation. Full-block schedules (full-*): all validators configured alike with the default limits (MaxTransactionsPerBlock 512) or a higher configured maximum (1000 / 2000 and a MaxBlockSize to match), perfect network, N cheap transactions with N around the limits (499..513, 520, 999..1100, 1999..2100) in every pool before the services start, so that the first proposal names min(N, limit) hashes; a second burst is pooled while the chain runs; blocks of min(N, limit) transactions are expected at view 0 (view-0 inclusion oracle from height 1 on) and everything on chain within 2 + ceil(N/limit) + validators heights. Distinct = cluster variant x fault kinds applied x mechanisms reached (view change, recovery, tx fetch, block sync, duplication, reordering); non-trivial = blocks were produced under faults (scripted: the commit lock was observed at the Broadcast boundary / a backlog was delivered in one burst / a height was settled at a later view after a proposal above the common limits, or over the refusal of a validator with smaller limits / after the backups could not get a proposed transaction / a block carried min(N, limit) transactions) and the offline checker compared the ledgers of all nodes")
 	defer run.Finish()
 	run.Assume("the simulated network stands for the P2P layer: payloads, blocks and transactions are re-encoded and re-decoded on every hop; inv/getdata/response exchanges are folded into one message that can be lost, duplicated or delayed")
 	run.Assume("validators are honest or silent/late (cut, mute, deaf, delayed); Byzantine payloads are out of scope of the property")
@@ -645,6 +655,8 @@ func TestCheck(t *testing.T) {
 	scheds = append(scheds, misconfSchedules()...)
 	// a proposed transaction the backups cannot get
 	scheds = append(scheds, lostTxSchedules()...)
+	// pools fuller than a block of the default (or a higher configured) limits
+	scheds = append(scheds, fullSchedules()...)
 	if v := os.Getenv("C19_ONLY"); v != "" { // development aid: prefix filter
 		scheds = slices.DeleteFunc(scheds, func(s schedule) bool { return !strings.HasPrefix(s.ID, v) })
 	}
@@ -793,7 +805,10 @@ func report(run *ev.Run, sc schedule, att int, res *attemptResult) {
 		return
 	}
 	for k, v := range res.an.obs {
-		if strings.Contains(k, "max_") {
+		if strings.HasPrefix(k, "largest_") && os.Getenv("VERIF_PART") == "bursts" {
+			continue // the driver adds the parts' numbers up: the maxima come from the part 'net' alone
+		}
+		if strings.Contains(k, "max_") || strings.HasPrefix(k, "largest_") {
 			run.ObsMax(k, v)
 			continue
 		}
@@ -806,6 +821,9 @@ func report(run *ev.Run, sc schedule, att int, res *attemptResult) {
 	cfgSig := sc.Cfg.String()
 	if sc.Scen != "" {
 		cfgSig = "scripted:" + sc.Scen + " " + cfgSig
+	}
+	if sc.Scen == "full" {
+		cfgSig += fmt.Sprintf(" in-every-pool-before-the-start=%d later=%v", sc.Full.N, sc.Full.Second > 0)
 	}
 	if sc.Scen == "losttx" {
 		cfgSig += fmt.Sprintf(" withheld<=%d invalid-for-the-others=%v", sc.Lost.MaxLost, sc.Lost.Invalid)
@@ -820,6 +838,9 @@ func report(run *ev.Run, sc schedule, att int, res *attemptResult) {
 		built := res.net["commit_lock_rounds_established"] + res.net["backlog_rounds"] + res.net["epoch_burst_rounds"] +
 			res.an.obs["misconf_heights_settled_at_a_later_view_after_a_refused_proposal"] + res.an.obs["misconf_blocks_above_the_limits_of_an_odd_validator_settled_without_its_preparation"] +
 			res.net["losttx_heights_settled_after_a_view_change"]
+		if sc.Scen == "full" && res.an.obs["largest_block_on_chain_txs"] >= min(int64(sc.Full.N), res.net["full_max_block_capacity_txs"]) {
+			built++ // a block carried everything pooled before the start, or as much as the limits allow
+		}
 		nontrivial = built > 0 && res.an.obs["heights_agreed"] > 0 && res.an.obs["node_height_hashes_compared"] > 0
 		sig += fmt.Sprintf(" race-detector=%v lagger-committed-in-burst=%v", os.Getenv("VERIF_PART") != "bursts", res.net["backlog_laggers_that_committed_during_the_burst"]+res.net["epoch_burst_laggers_that_committed_during_the_burst"] > 0)
 	}
